@@ -85,6 +85,7 @@ class SimSocket:
         self.sent_total = 0         # bytes accepted by send() on this endpoint
         self.recv_total = 0
         self.maxseg = None          # if set: send() accepts at most this many bytes per call
+        self.connector = None       # set for sockets created unconnected (see connect())
         self.addr = None
 
     # -- identity ---------------------------------------------------------------------------
@@ -135,6 +136,13 @@ class SimSocket:
             self.world.ev(s=self.name, fd=self.fd, **kw)
 
     # -- syscalls ---------------------------------------------------------------------------
+    def connect(self, addr):
+        """Only meaningful for sockets created unconnected through the socket-module shim (simdrive.Sim)."""
+        if self.connector is None:
+            raise OSError(errno.EISCONN, 'Transport endpoint is already connected')
+        c, self.connector = self.connector, None
+        c(self, addr, 'socket.connect')
+
     def send(self, data, flags=0):
         data = bytes(data)
         try:
